@@ -2,6 +2,7 @@ use crate::run::*;
 use serde_json::Value as J;
 
 pub mod c06;
+pub mod c10;
 pub mod c11;
 pub mod c12;
 
@@ -11,6 +12,7 @@ pub type ReplayFn = fn(&str, &J, &mut Stats) -> Result<Vec<Fail>, String>;
 pub fn lookup(id: &str) -> Option<(RunFn, ReplayFn)> {
     match id {
         "C06" => Some((c06::run, c06::replay)),
+        "C10" => Some((c10::run, c10::replay)),
         "C11" => Some((c11::run, c11::replay)),
         "C12" => Some((c12::run, c12::replay)),
         _ => None,
